@@ -115,6 +115,7 @@ class Probe:
         self.xupdates = 0
         self.checks = 0
         self.last = None
+        self.total = 0          # probe hits in this process, over all solves
 
 
 PROBE = Probe()
@@ -128,11 +129,13 @@ def install_probe():
 
     def px(*a, **k):
         PROBE.xupdates += 1
+        PROBE.total += 1
         return ox(*a, **k)
 
     def pc(*a, **k):
         r = oc(*a, **k)
         PROBE.checks += 1
+        PROBE.total += 1
         try:
             PROBE.last = bool(r[0])
         except Exception:
@@ -159,7 +162,9 @@ def solve(S, lam, W, N, rho, cb, budget=BUDGET):
     res = admm.admm_optimize_theta(S.copy(), lam, W, N, rho=rho, rho_update=boyd if cb else None,
                                    max_iterations=budget, absolute_tolerance=1e-6, relative_tolerance=1e-6)
     if PROBE.xupdates == 0 and PROBE.checks == 0:
-        raise HarnessError("solver probes were not reached (update/convergence functions renamed?)")
+        # returned without iterating (an answer kept from an earlier call?): it claims a minimiser all the same.
+        # That the probes work at all is asserted per worker (PROBE.total, see work()).
+        return res.theta, 0, True
     iters = PROBE.xupdates if PROBE.xupdates else PROBE.checks + 1
     stopped_by_rule = iters < budget or (PROBE.last is True)
     return res.theta, iters, stopped_by_rule
@@ -229,7 +234,21 @@ def work(task):
         if stopped():
             break
         acc.n += 1
+        if fam == "main" and idx % 3 == 0:
+            # the caller first tries the identical problem with a budget of 3 iterations (too few), then asks again
+            # with the full budget: the second answer is judged like any other
+            Ss = (Q * np.array(e)) @ Q.T * scale
+            try:
+                solve((Ss + Ss.T) / 2, lam, W, N, rho, cb, budget=3)
+                acc.count("starved_first")
+            except HarnessError:
+                raise
+            except Exception:
+                pass
         msg, info = judge(N, W, fam, e, Q, lam, rho, cb, scale)
+        starved = fam == "main" and idx % 3 == 0
+        if msg and starved:
+            msg = "(asked first with max_iterations=3, then with the full budget) " + msg
         acc.count("family", fam)
         if info["stopped"]:
             acc.count("stopped_by_rule")
@@ -248,10 +267,12 @@ def work(task):
         if msg:
             acc.fail({"N": N, "W": W, "family": fam, "e": list(e), "basis": qn, "lambda_kind": ln,
                       "lambda": codec.enc(lam) if isinstance(lam, np.ndarray) else lam, "rho": rho,
-                      "callback": cb, "scale": scale, "seed": seed}, f"(N,W)=({N},{W}) {ln} rho={rho} cb={cb}: " + msg)
+                      "callback": cb, "scale": scale, "seed": seed, "starved_first": starved}, f"(N,W)=({N},{W}) {ln} rho={rho} cb={cb}: " + msg)
         if idx == 7 * (1 + seed % 5):
             acc.sample({"N": N, "W": W, "family": fam, "eigenvalues": list(e), "basis": qn, "lambda": ln,
                         "rho": rho, "callback": cb, "iterations": info["iters"], "kkt_ratio": info.get("kkt")})
+    if acc.n and PROBE.total == 0:
+        raise HarnessError("solver probes were never reached in this worker (update/convergence functions renamed?)")
     return acc.result()
 
 
@@ -286,7 +307,7 @@ def run(ctx):
         "beyond (12 evenly spaced ones for NW in {5,6} quick / NW>6), x {identity, Householder(1), seeded dense} bases x lambda {0,1e-3,0.11,0.5,1,5} floats, constant "
         "matrix, block-graded matrix, seeded matrix x step {rho=1} for all and {rho=0.1, rho=10, rho=1+residual "
         "balancing callback} for lambda in {0, 0.11, graded}; conditional-only families: rank-deficient "
-        "e in {0,1,4}^NW, S scaled by 1e-3/1e3. Verdict: KKT certificate (slack 1.5) + Toeplitz spread + symmetry + "
+        "e in {0,1,4}^NW, S scaled by 1e-3/1e3. Every third case of the main family is first asked with max_iterations=3 and then again with the full budget (the answer judged is the second). Verdict: KKT certificate (slack 1.5) + Toeplitz spread + symmetry + "
         "Cholesky on every solve that stopped by its rule; not stopping within 1000 iterations is a violation only "
         "on the unconditional sub-grid. non-trivial = certified solves with non-scalar S")
     ctx.assumptions += [
@@ -303,6 +324,14 @@ def replay(ctx, case):
     n = N * W
     Q = dict(bases(n, case["seed"]))[case["basis"]]
     lam = codec.dec(case["lambda"]) if isinstance(case["lambda"], dict) else case["lambda"]
+    if case.get("starved_first"):
+        Ss = (Q * np.array(case["e"])) @ Q.T * case["scale"]
+        try:
+            solve((Ss + Ss.T) / 2, lam, W, N, case["rho"], case["callback"], budget=3)
+        except HarnessError:
+            raise
+        except Exception:
+            pass
     msg, info = judge(N, W, case["family"], tuple(case["e"]), Q, lam, case["rho"], case["callback"], case["scale"])
     ctx.cov["evaluations"] = 1
     if msg:
